@@ -1,4 +1,48 @@
-(* C14 — property theorems (under construction) *)
-From Coq Require Import List ZArith.
-From AV Require Import Engine.Core Engine.Sem Engine.Eval Engine.Timeout.
+(* C14 — run_timeout stops only in a sound, resumable state.
+   Property theorems only; proofs in Engine/{TimeoutProofs,MainTimeout}.v.  Model: Engine/Timeout.v — the clock is
+   an arbitrary oracle consulted exactly where the generated code checks the deadline, so "at whatever point the
+   deadline struck" is the universal quantifier over [deadline]. *)
+From Coq Require Import List ZArith Bool.
+From AV Require Import Engine.Core Engine.Sem Engine.Eval Engine.Validate Engine.Naive Engine.Interface Engine.Timeout Engine.InterfaceTimeout Engine.TimeoutProofs Engine.MainTimeout.
 Import ListNotations.
+
+(* true => the full fixed point; in every case: inputs kept in place, every tuple present is derivable (the rows are
+   below every closed superset of the input), nothing added twice *)
+Theorem c14_stops_sound : forall (I : interp) swap (deadline : nat -> bool) arities P pl fuel F0 b st,
+  arities_functional arities -> wf_facts arities F0 = true -> no_agg P = true ->
+  validate arities P pl = true ->
+  run_timeout I swap deadline fuel pl (init_state F0) = Some (b, st) ->
+  (forall M', incl F0 M' -> closed I P M' -> incl (rows st) M')
+  /\ (exists added, rows st = F0 ++ added /\ NoDup added /\ (forall f, In f added -> ~ In f F0))
+  /\ wf_facts arities (rows st) = true
+  /\ (b = true -> least_model I P F0 (rows st)).
+Proof. exact run_timeout_correct_full. Qed.
+
+(* calling run() afterwards completes to exactly the fixed point of a single uninterrupted run() *)
+Theorem c14_resume_run : forall I swap (deadline : nat -> bool) arities P pl fuel fuel' F0 b st st',
+  arities_functional arities -> wf_facts arities F0 = true -> no_agg P = true -> validate arities P pl = true ->
+  run_timeout I swap deadline fuel pl (init_state F0) = Some (b, st) ->
+  run_plan I swap fuel' pl st = Some st' ->
+  least_model I P F0 (rows st').
+Proof. exact timeout_then_run. Qed.
+
+(* repeated interruptions stay sound w.r.t. the ORIGINAL input, and a later `true` is the original fixed point *)
+Theorem c14_resume_run_timeout : forall I swap (d1 d2 : nat -> bool) arities P pl fuel fuel' F0 b1 st1 b2 st2,
+  arities_functional arities -> wf_facts arities F0 = true -> no_agg P = true -> validate arities P pl = true ->
+  run_timeout I swap d1 fuel pl (init_state F0) = Some (b1, st1) ->
+  run_timeout I swap d2 fuel' pl st1 = Some (b2, st2) ->
+  (forall M', incl F0 M' -> closed I P M' -> incl (rows st2) M')
+  /\ incl F0 (rows st2) /\ wf_facts arities (rows st2) = true
+  /\ (b2 = true -> least_model I P F0 (rows st2)).
+Proof. exact timeout_then_timeout. Qed.
+
+(* run() is run_timeout with a clock that never fires (timeout = Duration::MAX) *)
+Theorem c14_never_firing_clock_is_run : forall I swap fuel pl st,
+  run_timeout I swap (fun _ => false) fuel pl st = option_map (fun st' => (true, st')) (run_plan I swap fuel pl st).
+Proof. exact run_timeout_never. Qed.
+
+(* PARTIAL: programs with aggregation / negation and lattice relations ("every lattice value is below the final
+   one") are exercised by the tie (gen/props/c14.py includes stratified programs) but are not covered by these
+   theorems; the real clock (web_time::Instant) is replaced by the oracle. *)
+
+Print Assumptions c14_stops_sound. Print Assumptions c14_resume_run. Print Assumptions c14_resume_run_timeout. Print Assumptions c14_never_firing_clock_is_run.
